@@ -93,7 +93,7 @@ def make_scratch(repo, groups, support):
     return d
 
 
-def _run_batch(d, hs, mode, features, jobs, res, per_timeout):
+def _run_batch(d, hs, mode, features, jobs, res, per_timeout, solver=""):
     names = [h["harness"] for h in hs]
     cmd = ["cargo", "kani", "--no-default-features"]
     if features:
@@ -102,14 +102,18 @@ def _run_batch(d, hs, mode, features, jobs, res, per_timeout):
             "--output-format", "terse", "-j", str(jobs)]
     for n in names:
         cmd += ["--harness", n]
+    if solver == "z3":
+        # SMT back end: word-level reasoning (two occurrences of the same division are the same term)
+        cmd += ["--cbmc-args", "--z3"]
     env = dict(os.environ)
     env["CARGO_NET_OFFLINE"] = "true"
     env["CARGO_TARGET_DIR"] = os.path.join(d, "target-%s-%s" % (mode, features or "core"))
     if mode == "rel":
         env["CARGO_PROFILE_DEV_DEBUG_ASSERTIONS"] = "false"
         env["CARGO_PROFILE_DEV_OVERFLOW_CHECKS"] = "true"
-    res.cmds.append("(scratch copy of /repo + src/verif_kani) %s%s  # %d harnesses" % (
-        "CARGO_PROFILE_DEV_DEBUG_ASSERTIONS=false " if mode == "rel" else "", " ".join(cmd[:12]) + " --harness ...", len(names)))
+    res.cmds.append("(scratch copy of /repo + src/verif_kani) %s%s%s  # %d harnesses" % (
+        "CARGO_PROFILE_DEV_DEBUG_ASSERTIONS=false " if mode == "rel" else "", " ".join(cmd[:12]) + " --harness ...",
+        " --cbmc-args --z3" if solver == "z3" else "", len(names)))
     t0 = time.time()
     try:
         p = subprocess.run(cmd, cwd=d, env=env, stdout=subprocess.PIPE, stderr=subprocess.STDOUT, text=True,
@@ -121,11 +125,11 @@ def _run_batch(d, hs, mode, features, jobs, res, per_timeout):
     wall = time.time() - t0
     try:
         os.makedirs(os.path.join(VERIF, "build"), exist_ok=True)
-        with open(os.path.join(VERIF, "build", "kani-%s-%s-%s.log" % (hs[0]["group"], mode, features or "core")), "w") as f:
+        with open(os.path.join(VERIF, "build", "kani-%s-%s-%s%s.log" % (hs[0]["group"], mode, features or "core", "-" + solver if solver else "")), "w") as f:
             f.write(out)
     except OSError:
         pass
-    res.solver_s["kani:%s:%s" % (mode, features or "core")] = round(wall, 1)
+    res.solver_s["kani:%s:%s%s" % (mode, features or "core", ":" + solver if solver else "")] = round(wall, 1)
     return out
 
 
@@ -255,15 +259,15 @@ def run_groups(groups, repo, prop, tier, only=None):
         d = make_scratch(repo, groups, support)
         batches = {}
         for h in hs:
-            batches.setdefault((h.get("mode", "rel"), h.get("features", "")), []).append(h)
-        for (mode, features), bh in sorted(batches.items()):
+            batches.setdefault((h.get("mode", "rel"), h.get("features", ""), h.get("solver", "")), []).append(h)
+        for (mode, features, solver), bh in sorted(batches.items()):
             per_timeout = max(int(h.get("timeout", "300")) for h in bh)
             jobs = min(8, len(bh))
-            out = _run_batch(d, bh, mode, features, jobs, res, per_timeout)
+            out = _run_batch(d, bh, mode, features, jobs, res, per_timeout, solver)
             cls = _classify(out, bh, mode)
             for h in bh:
                 st = cls[h["harness"]]
-                rec = {"name": "%s/%s[%s]" % (h["group"], h["harness"], mode), "status": st["status"], "doc": h.get("doc", ""),
+                rec = {"name": "%s/%s[%s%s]" % (h["group"], h["harness"], mode, "," + solver if solver else ""), "status": st["status"], "doc": h.get("doc", ""),
                        "target": h.get("target", ""), "bounded": h.get("bounded"), "time_s": st.get("time_s", 0.0)}
                 if st["status"] == "failed":
                     test, fails = _playback(d, h, mode, features, per_timeout)
